@@ -283,7 +283,7 @@ Proof.
       destruct (reject_check_refines r m now v b Hk Hl Hhere) as [Hd Hc]. fold T B D in Hd, Hc.
       destruct (reject_check r m now v b) as [m1 d]. cbn [fst snd] in *.
       specialize (IH m1 Hrest H1 Hst). fold T B D in IH. cbn zeta in IH.
-      destruct (ctrl_run r m1 rest) as [m2 ds]. cbn [fst snd decs_for] in *. rewrite E.
+      destruct (ctrl_run r m1 rest) as [m2 ds]. cbn [fst snd decs_for] in *. rewrite ?Z.eqb_refl.
       cbn [bucket_run]. destruct (bucket_step T B D (cell m v) now b) as [c1 a]. cbn [fst snd] in *.
       subst c1 d. destruct IH as [IH1 IH2].
       destruct (bucket_run T B D (cell m1 v) (proj v rest)) as [c2 l]. cbn [fst snd map] in *.
@@ -294,5 +294,5 @@ Proof.
       { destruct Hoth as [H|H]; [exact H|].
         destruct (cell m v) eqn:Ec; [|exact H]. exfalso. apply Hhere; [discriminate|exact H]. }
       specialize (IH m1 Hrest H1 Hst). fold T B D in IH. cbn zeta in IH. rewrite Hsame in IH.
-      destruct (ctrl_run r m1 rest) as [m2 ds]. cbn [fst snd decs_for] in *. rewrite E. exact IH.
+      destruct (ctrl_run r m1 rest) as [m2 ds]. cbn [fst snd decs_for] in *. try rewrite E. exact IH.
 Qed.
